@@ -394,8 +394,11 @@ func c16script(c *ctx, idx int) {
 				g.rig.panel.UpdateUsageQueueForOne(u.cur)
 				o.T(fmt.Sprintf("acct.forOne uid=%d", u.uid), g.digest())
 			} else if len(u.retired) > 0 {
-				g.rig.panel.UpdateUsageQueueForOne(u.retired[r.intn(len(u.retired))])
-				o.T(fmt.Sprintf("acct.forOld uid=%d", u.uid), g.digest())
+				rec := u.retired[r.intn(len(u.retired))]
+				v := server.VerifValve(rec)
+				rx, tx := v.GetRx(), v.GetTx()
+				g.rig.panel.UpdateUsageQueueForOne(rec)
+				o.T(fmt.Sprintf("acct.forOld uid=%d up=%d down=%d", u.uid, rx, tx), g.digest())
 			}
 		case 13: // overlap: traffic arrives while updateUsageQueue sits between its two lock acquisitions
 			parked, release := make(chan struct{}), make(chan struct{})
@@ -445,6 +448,7 @@ func c16script(c *ctx, idx int) {
 				g.commit()
 			}
 			stillCur := g.rig.panel.ActiveRecord(uidBytes(u.uid)) == rec
+			rx, tx := server.VerifValve(rec).GetRx(), server.VerifValve(rec).GetTx()
 			close(release)
 			<-done
 			common.SetVerifHook(nil)
@@ -452,7 +456,7 @@ func c16script(c *ctx, idx int) {
 			if stillCur {
 				o.T(fmt.Sprintf("acct.terminate uid=%d", u.uid), g.digest())
 			} else {
-				o.T(fmt.Sprintf("acct.forOld uid=%d", u.uid), g.digest())
+				o.T(fmt.Sprintf("acct.forOld uid=%d up=%d down=%d", u.uid, rx, tx), g.digest())
 			}
 			o.stat("overlap_close_collect", 1)
 		case 15:
